@@ -671,8 +671,9 @@ def gen_store(pid, tier, seed, scale, rng, hists, stats):
             # masks that live entirely in one top-layer block other than the first (indices >= 64^3): bit sets, alone
             # or with optional / negated storage members; sequential twin first
             for _ in range((40 if q else 400) * scale):
-                base = rng.choice([1, 2, 3, 17, 63]) * 262144 + rng.choice([0, 0, 4096 * rng.randrange(60)])
-                bits = sorted(set(base + rng.choice([0, 1, 63, 64, 65, 4095, 4096, 4097, rng.randrange(200000)])
+                base = rng.choice([1, 2, 3, 17, 63]) * 262144        # all values stay inside that block (< 2^24)
+                shift = rng.choice([0, 0, 4096 * rng.randrange(60)])
+                bits = sorted(set(base + (shift + rng.choice([0, 1, 63, 64, 65, 4095, 4096, 4097, rng.randrange(200000)])) % 262144
                                   for _ in range(rng.randint(1, 8))))
                 members = [3, len(bits)] + bits
                 nm = 1
